@@ -7,13 +7,98 @@ from .. import campaign as C
 from ..driver import analysis_check, standard_items
 
 
+def typer_part(ctx):
+    """spec/Typer.tla: the fixed-point typer as a machine with one action per sweep; the state recorded after every
+    real _progress call must be the model's.  Deviations are VIOLATIONs of C05 only when the resulting types differ
+    from the model's in the unsound direction (a variable typed although the model fails it, or a value set that is
+    smaller than the model's); a typer that is merely less precise than the model is reported as a NOTE."""
+    from fractions import Fraction as F
+    from .. import absyn, encode as E, pool, tlc
+    run = ctx["run"]
+    quick = run.tier == "quick"
+    picks = [it for it in ctx["items"] if it.get("text")][: (40 if quick else 400)]
+    jobs = []
+    for fp in ((100, 1) if quick else (100, 1, 2, 3)):
+        for it in picks:
+            jobs.append({"kind": "typer", "id": f"{it['id']}|fp{fp}", "text": it["text"], "settings": {"type_fp_iterations": fp}, "timeout": 60})
+    res = pool.run_jobs(jobs, per_job_timeout=90)
+    by_D, meta = {}, {}
+    skipped = 0
+    for j in jobs:
+        r = res.get(j["id"], {})
+        if "sweeps" not in r or "init" not in r:
+            skipped += 1
+            continue
+        vars_ = sorted(set(r["vars"]) | set(r["init"]))
+        idx = {v: i + 1 for i, v in enumerate(vars_)}
+        try:
+            nums = []
+
+            def vals(o, v):
+                e = o.get(v, {"vals": [], "failed": False, "locked": False, "changed": False})
+                xs = [F(x) for x in e["vals"]]          # symbolic values raise ValueError: numeric programs only
+                nums.extend(xs)
+                return {"vals": xs, "failed": e["failed"], "locked": e["locked"], "changed": e["changed"]}
+            init = [vals(r["init"], v) for v in vars_]
+            sweeps = [[vals(o, v) for v in vars_] for o in r["sweeps"]]
+            body = []
+            for st in r["body"]:
+                exprs = [absyn.poly(p) for p in st["exprs"]]
+                for p in exprs:
+                    nums.extend(c for c, _m in p)
+                body.append({"v": idx[st["v"]], "interval": st["interval"], "exprs": exprs})
+            D = E.choose_D(nums)
+            enc = E.Encoder(vars_)
+
+            def encst(stt):
+                return [{"vals": [E.enc_r(x, D) for x in e["vals"]], "failed": e["failed"], "locked": e["locked"], "changed": e["changed"]} for e in stt]
+            tr = {"id": j["id"].replace("|", "_").replace("/", "_"), "nv": len(vars_), "maxvals": r["maxvals"], "iterations": r["iterations"],
+                  "init": encst(init), "sweeps": [encst(x) for x in sweeps],
+                  "body": [{"v": b["v"], "interval": b["interval"], "exprs": [enc.poly(p, D) for p in b["exprs"]]} for b in body]}
+        except (ValueError, E.NotDadic, KeyError, ZeroDivisionError):
+            skipped += 1
+            continue
+        by_D.setdefault(D, []).append(tr)
+        meta[tr["id"]] = (j, r, vars_)
+    out = {"typer_traces": 0, "typer_sweeps": 0, "typer_programs_skipped_symbolic_or_refused": skipped, "typer_mismatches": 0,
+           "typer_states": 0}
+    for D, trs in sorted(by_D.items()):
+        ok, gen_, distinct, verdicts, tail = tlc.run_spec("Typer", {"D": D, "traces": trs}, workers=8)
+        if not ok:
+            run.error("TLC Typer: " + tail)
+            continue
+        out["typer_states"] += distinct
+        for tr in trs:
+            v = verdicts.get(tr["id"])
+            if v is None:
+                run.error(f"typer trace {tr['id']}: no verdict")
+                continue
+            out["typer_traces"] += 1
+            out["typer_sweeps"] += v["sweeps"]
+            if not v["fails"]:
+                continue
+            out["typer_mismatches"] += 1
+            j, r, vars_ = meta[tr["id"]]
+            model_failed = {vars_[i - 1] for i in v["failed"]}
+            typed = set(r.get("typedefs", {}))
+            unsound = sorted(typed & model_failed)
+            detail = {"clause": "typer run is not a behaviour of spec/Typer.tla", "program": j["text"], "settings": j["settings"],
+                      "failures": v["fails"][:4], "typed_although_the_model_fails_them": unsound}
+            if unsound or any(f.get("clause") in ("not a fixed point", "reads a failed variable but is not failed") for f in v["fails"]):
+                run.violation({j["id"]}, detail)
+            else:
+                print(f"NOTE typer deviates from spec/Typer.tla without an unsound type: {j['id']} {v['fails'][:1]}")
+                out.setdefault("typer_notes", []).append({"id": j["id"], "fails": v["fails"][:2]})
+    return out
+
+
 def main(tier, seed):
     items = standard_items(seed, tier, 24, 300, bench_quick=8, ps_quick=20, ps_thorough=220)
     variants = [("", {})] if tier == "quick" else [("", {}), ("-fp1", {"type_fp_iterations": 1}), ("-fp2", {"type_fp_iterations": 2})]
     if tier == "quick":
         variants.append(("-fp1", {"type_fp_iterations": 1}))
     return analysis_check("C05", tier, seed, items=items, want=["normalized", "types"], variants=variants,
-                          builders=[C.b_normalized, C.b_types], N=5 if tier == "quick" else 8,
+                          builders=[C.b_normalized, C.b_types], N=5 if tier == "quick" else 8, post=typer_part,
                           assumptions=["user-declared types are taken as given (not checked)",
                                        "infinite-state programs are explored to depth N only; finite-state ones until the reachable set closes when that happens within N"])
 
